@@ -580,6 +580,27 @@ func vtsPolyBottom(s *valueTypeStack) bool {
 //@   ensures[outer-frames-kept] forall i int :: 0 <= i && i < len(s.stackLimits) ==> s.stackLimits[i] == old[int](s.stackLimits[i])
 //@   modifies s.stackLimits
 
+// The validator's stacks are reused from one function body to the next: reset leaves nothing of the previous
+// function behind - no operands, no frame limits, no high-water mark, no labels - and exactly one control
+// block, the function's own (op 0), typed with the function's signature.
+//@ prop C03
+//@ func (sts *stacks) reset(functionType *FunctionType)
+//@   ensures[no-operands-or-frames-left] len(sts.vs.stack) == 0 && len(sts.vs.stackLimits) == 0 && sts.vs.maximumStackPointer == 0 && len(sts.ls) == 0
+//@   ensures[only-the-function-block] len(sts.cs.stack) == 1 && sts.cs.stack[0].blockType == functionType && sts.cs.stack[0].op == 0
+//@   ensures[function-block-positions-zero] sts.cs.stack[0].startAt == 0 && sts.cs.stack[0].elseAt == 0 && sts.cs.stack[0].endAt == 0 && sts.cs.stack[0].blockTypeBytes == 0
+//@   modifies sts.vs.stack, sts.vs.stackLimits, sts.vs.maximumStackPointer, sts.cs.stack, elems(sts.cs.stack), sts.ls
+
+//@ func (s *controlBlockStack) pop() *controlBlock
+//@   requires len(s.stack) >= 1
+//@   ensures[removes-the-innermost-block] len(s.stack) == old(len(s.stack))-1 && r0 == old[*controlBlock](&s.stack[len(s.stack)-1])
+//@   ensures[outer-blocks-kept] forall i int :: 0 <= i && i < len(s.stack) ==> s.stack[i] == old[controlBlock](s.stack[i])
+//@   modifies s.stack
+
+//@ func (s *controlBlockStack) push(startAt, elseAt, endAt uint64, blockType *FunctionType, blockTypeBytes uint64, op Opcode)
+//@   ensures[pushes-the-described-block] len(s.stack) == old(len(s.stack))+1 && s.stack[len(s.stack)-1].startAt == startAt && s.stack[len(s.stack)-1].elseAt == elseAt && s.stack[len(s.stack)-1].endAt == endAt && s.stack[len(s.stack)-1].blockType == blockType && s.stack[len(s.stack)-1].blockTypeBytes == blockTypeBytes && s.stack[len(s.stack)-1].op == op
+//@   ensures[outer-blocks-kept] forall i int :: 0 <= i && i < old(len(s.stack)) ==> s.stack[i].blockType == old[*FunctionType](s.stack[i].blockType) && s.stack[i].op == old[Opcode](s.stack[i].op) && s.stack[i].startAt == old[uint64](s.stack[i].startAt) && s.stack[i].elseAt == old[uint64](s.stack[i].elseAt)
+//@   modifies s.stack, elems(s.stack)
+
 // ---- C03: block types. Both compilers and the validator decode a block's type with DecodeBlockType and
 // then index Params / Results of what it returns without a nil check. A case contract: verified on its own, not
 // used at call sites (the callers' cases keep executing the body), so its preconditions bind no caller.
